@@ -71,8 +71,10 @@ def generate(seed, tier):
             ops.append(["rng_perturb", rng.randint(1, 5), rng.randrange(1 << 30) if rng.random() < 0.4 else None])
         elif interfere and r < 0.22:
             ops.append(["random_rule_solve", rng.randrange(1 << 30)])
-        elif r < 0.3:
+        elif r < 0.27:
             ops.append(["next", rng.randrange(8)])
+        elif r < 0.3:
+            ops.append(["gen_explicit", rng.randrange(8), rng.randrange(3), rng.randint(1, 6), rng.randint(1, 6)])
         elif r < 0.36:
             ops.append(["list", rng.randrange(8)])
         else:
@@ -162,6 +164,12 @@ def solo_sequence(g, script):
         out = []
         it = None
         for kind in script:
+            if isinstance(kind, tuple):
+                try:
+                    gen.generate(**kind[1])
+                except Exception:  # noqa: BLE001
+                    pass
+                continue
             if kind == "gen":
                 out.append(plain(gen.generate()))
             elif kind == "next":
@@ -208,24 +216,60 @@ def execute(case, ctx):
         twin_idx = len(gens) - 1
         ctx.probe("interleaved_same_seed_generators")
 
-    def act(gi, kind):
+    taken = {}  # generator index -> instances yielded since the current iteration started
+
+    def act(gi, kind, explicit=None):
         g, gen = params[gi], gens[gi]
         if gen is None:
             return
         try:
+            if kind == "gen_explicit":
+                # generate() with explicit sizes: the shape promises that still apply must hold
+                from job_shop_lib.exceptions import ValidationError
+
+                which, ej, em = explicit
+                kw = {"num_jobs": ej} if which == 0 else ({"num_machines": em} if which == 1 else {"num_jobs": ej, "num_machines": em})
+                # skip requests that cannot be satisfied at all (more eligible machines per operation than machines)
+                nj_low = kw.get("num_jobs", rng_of(g["num_jobs"])[0])
+                m_low = kw["num_machines"] if "num_machines" in kw else (rng_of(g["num_machines"])[0] if g["allow_less_jobs_than_machines"] else min(rng_of(g["num_machines"])[0], nj_low))
+                if rng_of(g["machines_per_operation"])[1] > m_low:
+                    return
+                try:
+                    inst = gen.generate(**kw)
+                except ValidationError:
+                    ctx.check(not g["allow_less_jobs_than_machines"], "generate_raised", lambda: f"generator {gi} {g}: generate({kw}) raised ValidationError although fewer jobs than machines are allowed")
+                    ctx.probe("explicit_sizes_refused")
+                else:
+                    nj, M = len(inst.jobs), len(inst.jobs[0])
+                    ctx.check(all(len(j) == M for j in inst.jobs) and (kw.get("num_jobs", nj) == nj) and (kw.get("num_machines", M) == M), "explicit_sizes_respected",
+                              lambda: f"generator {gi}: generate({kw}) returned {nj} jobs x {M} operations")
+                    if not g["allow_less_jobs_than_machines"]:
+                        ctx.check(nj >= M, "at_least_as_many_jobs_as_machines", lambda: f"generator {gi} {g}: generate({kw}) returned {nj} jobs on {M} machines although fewer jobs than machines are disallowed")
+                    ctx.check(inst.name not in names[gi], "names_never_reused", lambda: f"generator {gi}: name {inst.name!r} reused")
+                    names[gi].add(inst.name)
+                    ctx.count("generated")
+                    ctx.probe("explicit_sizes_generated")
+                scripts[gi].append(("gen_explicit", kw))
+                return
             if kind == "gen":
                 inst = gen.generate()
                 check_instance(ctx, g, inst, names[gi], usage[gi], gi)
                 seqs[gi].append(plain(inst))
                 ctx.count("generated")
             elif kind == "next":
-                iters[gi] = iter(gen) if iters[gi] is None else iters[gi]
+                if iters[gi] is None:
+                    iters[gi] = iter(gen)
+                    taken[gi] = 0
                 try:
                     inst = next(iters[gi])
                 except StopIteration:
                     seqs[gi].append("stop")
-                    ctx.check(g["iteration_limit"] is not None, "iteration_yields_limit", lambda: f"generator {gi}: StopIteration without an iteration limit")
+                    ctx.check(g["iteration_limit"] is not None and taken[gi] == g["iteration_limit"], "iteration_yields_limit",
+                              lambda: f"generator {gi}: iteration stopped after {taken[gi]} instances, iteration_limit = {g['iteration_limit']} (generate() calls in between do not count)")
                 else:
+                    taken[gi] += 1
+                    ctx.check(g["iteration_limit"] is None or taken[gi] <= g["iteration_limit"], "iteration_yields_limit",
+                              lambda: f"generator {gi}: iteration yielded {taken[gi]} instances, iteration_limit = {g['iteration_limit']}")
                     check_instance(ctx, g, inst, names[gi], usage[gi], gi)
                     seqs[gi].append(plain(inst))
                     ctx.count("generated")
@@ -272,9 +316,10 @@ def execute(case, ctx):
             continue
         n_user = len(cfg["generators"])
         gi = op[1] % n_user
-        act(gi, kind)
+        explicit = (op[2], op[3], op[4]) if kind == "gen_explicit" else None
+        act(gi, kind, explicit)
         if twin_idx is not None and gi == twin["of"]:
-            act(twin_idx, kind)  # the sibling makes the same call right after (step-by-step interleaving)
+            act(twin_idx, kind, explicit)  # the sibling makes the same call right after (step-by-step interleaving)
             ctx.count("interference")
         ctx.event(i, kind, gi, h64(seqs[gi][-1]) if seqs[gi] else None)
     ctx.step = len(case["ops"])
@@ -282,7 +327,9 @@ def execute(case, ctx):
     if twin and twin["placement"] == "later" and gens[twin["of"]] is not None:
         params.append(params[twin["of"]])
         add(params[-1])
-        for kind in scripts[twin["of"]]:
+        for kind in list(scripts[twin["of"]]):
+            if isinstance(kind, tuple):
+                continue  # explicit-size calls are not replayed on the late twin (they are not part of the sequence promise)
             act(len(gens) - 1, kind)
         ctx.probe("same_seed_generator_built_later")
         ctx.count("interference")
